@@ -9,10 +9,70 @@ from builtins_rs import zi
 
 
 OPAQUE_BASE = 10**12
+NTAG = 1000
+
+
+def rust_f64_text(x, debug):
+    """text of an f64 under `{:?}` (debug) / `{}`: Rust prints the shortest round-trip decimal, never an exponent under
+    Display, an exponent under Debug outside [1e-5, 1e16); only the range where Python's repr is plain decimal is modelled"""
+    import math
+    if x != x:
+        return "NaN"
+    if math.isinf(x):
+        return "inf" if x > 0 else "-inf"
+    if x == 0:
+        neg = math.copysign(1.0, x) < 0
+        return ("-0" if neg else "0") + (".0" if debug else "")
+    if not (1e-4 <= abs(x) < 1e16):
+        raise Unsupported("formatting an f64 outside [1e-4, 1e16)")
+    r = repr(x)
+    if r.endswith(".0") and not debug:
+        r = r[:-2]
+    return r
 
 
 class CallsMixin:
     _fmt_fns = {}
+    _tmpl_tags = {}
+
+    # ------------------------------------------------------------------ tiny file-system model (C20-style units)
+    def fs_place(self):
+        from interp import Scope, Place
+        ip = self.ip
+        if not hasattr(ip, "fs_scope"):
+            ip.fs_scope = Scope(None)
+            ip.fs_scope.vars["fs"] = Mp([])
+        return Place(ip.fs_scope, "fs")
+
+    def fs_get(self):
+        return self.ip.deref(self.ip.read(self.fs_place()))
+
+    def path_join(self, a, b):
+        return self.concat([a, S("/"), b])
+
+    def fs_step(self):
+        """one file-system mutation is about to happen: returns (applies fully, is the interrupted one).
+        Without an armed crash point (ip.fs_crash None) every mutation applies. With one, mutation number
+        ip.fs_crash (counted from arming) is the one the crash interrupts and later ones never happen."""
+        ip = self.ip
+        if getattr(ip, "fs_crash", None) is None:
+            return True, False
+        n = ip.fs_ops
+        ip.fs_ops = n + 1 if ip.g is True else z3.If(zbool(ip.g), n + 1, n)
+        return n < ip.fs_crash, n == ip.fs_crash
+
+    def fs_put(self, path, content, partial_content=None):
+        """file-system mutation: path := content (None = remove); an interrupted write leaves partial_content"""
+        ip = self.ip
+        full, part = self.fs_step()
+        with ip.under(full):
+            fsm = self.fs_get()
+            nm = self.map_remove(fsm, path)[0] if content is None else self.map_insert(fsm, path, content)[0]
+            ip.write(self.fs_place(), nm)
+        if partial_content is not None and part is not False:
+            with ip.under(part):
+                ip.write(self.fs_place(), self.map_insert(self.fs_get(), path, partial_content)[0])
+
 
     def is_alternatives(self, s):
         try:
@@ -114,12 +174,28 @@ class CallsMixin:
         if all(p.conc() for p in pieces):
             return S("".join(p.v for p in pieces))
         if any(not p.conc() and not self.is_alternatives(p) for p in pieces):
+            # case split the pieces that are symbolic choices among concrete texts, so that only truly opaque pieces remain
+            for i_, p in enumerate(pieces):
+                if not p.conc() and self.is_alternatives(p):
+                    res = None
+                    for cnd, txt in reversed(p.leaves()):
+                        r = self.concat(pieces[:i_] + [S(txt)] + pieces[i_ + 1:])
+                        res = r if res is None else ite(cnd, r, res)
+                    return res
             # a piece is opaque (formatted free integer): the result is an uninterpreted function of the
             # opaque pieces, one function symbol per template; equal inputs give equal strings (congruence),
             # different templates/inputs are NOT forced to differ (over-approximation; counterexamples are replayed)
             tmpl = tuple(p.v if p.conc() else None for p in pieces)
-            fn = self._fmt_fns.setdefault(tmpl, z3.Function("fmt!%d" % len(self._fmt_fns), *([z3.IntSort()] * (sum(1 for x in tmpl if x is None) + 1))))
-            return S(fn(*[p.z() for p in pieces if not p.conc()]))
+            opaque = [p for p in pieces if not p.conc()]
+            if len(opaque) == 1:
+                # one opaque piece: injective arithmetic code (payload * NTAG + template tag); equal texts <=> equal
+                # templates and equal payloads, and never equal to an interned (concrete) string
+                tag = self._tmpl_tags.setdefault(tmpl, len(self._tmpl_tags))
+                if tag >= NTAG - 1:
+                    raise Unsupported("too many string templates")
+                return S(opaque[0].z() * NTAG + tag)
+            fn = self._fmt_fns.setdefault(tmpl, z3.Function("fmt!%d" % len(self._fmt_fns), *([z3.IntSort()] * (len(opaque) + 1))))
+            return S(fn(*[p.z() for p in opaque]))
         # cross product over the alternatives of the symbolic pieces
         acc = [(True, "")]
         for p in pieces:
@@ -137,14 +213,76 @@ class CallsMixin:
             res = S(txt) if res is None else ite(c, S(txt), res)
         return res
 
+    def int_cases(self, e, limit=64):
+        """(condition, integer) alternatives of an integer term built from literals, ite and + - *; None if the term
+        contains anything else (a free integer) or has more than `limit` alternatives"""
+        if z3.is_int_value(e):
+            return [(True, e.as_long())]
+        if z3.is_app_of(e, z3.Z3_OP_ITE):
+            a, b = self.int_cases(e.arg(1), limit), self.int_cases(e.arg(2), limit)
+            if a is None or b is None:
+                return None
+            c = e.arg(0)
+            out = [(band(c, c1), v) for c1, v in a] + [(band(bnot(c), c1), v) for c1, v in b]
+        elif z3.is_app(e) and e.decl().kind() in (z3.Z3_OP_ADD, z3.Z3_OP_SUB, z3.Z3_OP_MUL) and e.num_args() >= 1:
+            k = e.decl().kind()
+            out = None
+            for i_ in range(e.num_args()):
+                a = self.int_cases(e.arg(i_), limit)
+                if a is None:
+                    return None
+                if out is None:
+                    out = a
+                else:
+                    op = (lambda x, y: x + y) if k == z3.Z3_OP_ADD else (lambda x, y: x - y) if k == z3.Z3_OP_SUB else (lambda x, y: x * y)
+                    out = [(band(c1, c2), op(v1, v2)) for c1, v1 in out for c2, v2 in a]
+                if len(out) > 4 * limit:
+                    return None
+        else:
+            return None
+        merged = {}
+        for c, v in out:
+            if c is False:
+                continue
+            merged[v] = bor(merged[v], c) if v in merged else c
+        if len(merged) > limit:
+            return None
+        return list((c, v) for v, c in merged.items())
+
+    def f_cases(self, e, limit=64):
+        """(condition, python float) alternatives of an f64 term that is an ite tree over literals; None otherwise"""
+        e = z3.simplify(e)
+        if z3.is_fp_value(e):
+            import struct
+            bits = z3.simplify(z3.fpToIEEEBV(e))
+            if e.isNaN():
+                return [(True, float("nan"))]
+            return [(True, struct.unpack(">d", struct.pack(">Q", bits.as_long()))[0])]
+        if z3.is_app_of(e, z3.Z3_OP_ITE):
+            a, b = self.f_cases(e.arg(1), limit), self.f_cases(e.arg(2), limit)
+            if a is None or b is None or len(a) + len(b) > limit:
+                return None
+            c = e.arg(0)
+            return [(band(c, c1), v) for c1, v in a] + [(band(bnot(c), c1), v) for c1, v in b]
+        return None
+
     def int_to_str(self, e, depth=0):
+        e = z3.simplify(e)
         if z3.is_int_value(e):
             return S(str(e.as_long()))
+        if depth == 0:
+            cs = self.int_cases(e)
+            if cs:
+                res = None
+                for c, v in reversed(cs):
+                    res = S(str(v)) if res is None else ite(c, S(str(v)), res)
+                return res
         if z3.is_app_of(e, z3.Z3_OP_ITE) and depth < 16:
             return ite(e.arg(0), self.int_to_str(e.arg(1), depth + 1), self.int_to_str(e.arg(2), depth + 1))
         # free integer: an *opaque* string id, injective in the integer and disjoint from all interned
         # ids (equality of two such strings <=> equality of the integers); its text cannot be inspected
-        return S(z3.If(e >= 0, OPAQUE_BASE + 2 * e, OPAQUE_BASE + 1 - 2 * e))
+        n = z3.If(e >= 0, 2 * e, 1 - 2 * e)                      # non-negative code of the integer
+        return S((OPAQUE_BASE + n) * NTAG + (NTAG - 1))          # tag NTAG-1 = "a formatted integer"
 
     def to_str(self, v, debug=False):
         v = self.ip.deref(v)
@@ -161,10 +299,54 @@ class CallsMixin:
         if is_sym(v) and z3.is_bool(v):
             return ite(v, S("true"), S("false"))
         if isinstance(v, F) and v.conc():
-            r = repr(v.v)
-            if r.endswith(".0") and not debug:
-                r = r[:-2]
-            return S(r)
+            return S(rust_f64_text(v.v, debug))
+        if isinstance(v, F):
+            cs = self.f_cases(v.z())
+            if cs is None:
+                raise Unsupported("formatting a free f64")
+            res = None
+            for c, x in reversed(cs):
+                res = S(rust_f64_text(x, debug)) if res is None else ite(c, S(rust_f64_text(x, debug)), res)
+            return res
+        if isinstance(v, En) and debug and v.name in getattr(self.ip, "debug_faithful", ()):
+            # derive(Debug) of an enum: `Variant` / `Variant(a, b)` / `Variant { f: a }`
+            res = None
+            for i_, (vn, shape) in reversed(list(enumerate(self.ip.enums[v.name]))):
+                if isinstance(v.tag, int) and v.tag != i_:
+                    continue
+                if shape is None:
+                    r = S(vn)
+                elif v.pl.get(i_) is None:
+                    continue                       # variant not inhabited on any path
+                elif shape[0] == "tuple":
+                    ps = v.pl[i_]
+                    ps = ps if isinstance(ps, list) else [ps[str(j)] for j in range(len(shape[1]))]
+                    pieces = [S(vn + "(")]
+                    for j, x in enumerate(ps):
+                        if j:
+                            pieces.append(S(", "))
+                        pieces.append(self.to_str(x, debug=True))
+                    r = self.concat(pieces + [S(")")])
+                else:
+                    pieces = [S(vn + " { ")]
+                    for j, (fn_, _) in enumerate(shape[1]):
+                        pieces.append(S((", " if j else "") + fn_ + ": "))
+                        pieces.append(self.to_str(v.pl[i_][fn_], debug=True))
+                    r = self.concat(pieces + [S(" }")])
+                res = r if res is None else ite(self.ip.tag_eq(v, i_), r, res)
+            if res is None:
+                raise Unsupported("Debug of an enum value without inhabited variant")
+            return res
+        if isinstance(v, Vc) and debug and getattr(self.ip, "debug_faithful", ()):
+            if not isinstance(v.n, int) and not z3.is_int_value(v.n):
+                raise Unsupported("Debug of a vector of symbolic length")
+            n = v.n if isinstance(v.n, int) else v.n.as_long()
+            pieces = [S("[")]
+            for j in range(n):
+                if j:
+                    pieces.append(S(", "))
+                pieces.append(self.to_str(v.items[j], debug=True))
+            return self.concat(pieces + [S("]")])
         if isinstance(v, (St, En)) and debug:
             return S("<%s:?>" % v.name)      # Debug renderings only appear in messages; never compared
         if isinstance(v, (St, En)):
@@ -272,6 +454,57 @@ class CallsMixin:
             if last == "from_secs":
                 return St("Duration", {"ms": self.binop("Mul", I(x.v, "u128"), I(1000, "u128"))})
             raise Unsupported("sub-millisecond Duration constructor %s" % last)
+        EMPTY = St("JsonText", {"v": none(), "empty": True})          # an empty / truncated / non-JSON file, or a directory entry
+        if t == "fs" and last in ("create_dir_all", "create_dir"):
+            self.fs_put(ip.deref(A()[0]), EMPTY)            # directories are entries too (exists() sees them; reading one fails)
+            return ok(UNIT)
+        if key in ("File::create", "File::open") or (len(names) >= 3 and names[-3] == "fs" and key in ("File::create", "File::open")):
+            p = ip.deref(A()[0])
+            if last == "create":
+                self.fs_put(p, EMPTY)
+                return ok(St("File", {"path": p}))
+            found, cur = self.map_lookup(self.fs_get(), p)
+            return En("Result", ite(found, I(0), I(1)).v, {0: [St("File", {"path": p})], 1: [St("IoError", {})]})
+        if t == "fs" and last == "remove_dir_all":
+            d = ip.deref(A()[0])
+            full, _ = self.fs_step()
+            with ip.under(full):
+                nm, _ = self.map_remove(self.fs_get(), self.path_join(d, S("state.json")))
+                nm, _ = self.map_remove(nm, d)
+                ip.write(self.fs_place(), nm)
+            return ok(UNIT)
+        if t == "fs" and last == "remove_file":
+            p = ip.deref(A()[0])
+            found, _ = self.map_lookup(self.fs_get(), p)
+            self.fs_put(p, None)
+            return En("Result", ite(found, I(0), I(1)).v, {0: [UNIT], 1: [St("IoError", {})]})
+        if t == "fs" and last == "write":
+            a = A()
+            self.fs_put(ip.deref(a[0]), ip.deref(a[1]), partial_content=EMPTY)
+            return ok(UNIT)
+        if t == "fs" and last == "read_to_string":
+            found, cur = self.map_lookup(self.fs_get(), ip.deref(A()[0]))
+            return En("Result", ite(found, I(0), I(1)).v, {0: [cur if cur is not None else EMPTY], 1: [St("IoError", {})]})
+        if t == "fs" and last == "rename":
+            a = A()
+            src, dst = ip.deref(a[0]), ip.deref(a[1])
+            found, cur = self.map_lookup(self.fs_get(), src)
+            full, _ = self.fs_step()                        # rename is atomic: it happened or it did not
+            with ip.under(band(full, found)):
+                nm, _ = self.map_remove(self.fs_get(), src)
+                nm, _ = self.map_insert(nm, dst, cur if cur is not None else EMPTY)
+                ip.write(self.fs_place(), nm)
+            return En("Result", ite(found, I(0), I(1)).v, {0: [UNIT], 1: [St("IoError", {})]})
+        if t == "serde_json" and last in ("to_string_pretty", "to_string"):
+            return ok(St("JsonText", {"v": some(ip.deref(A()[0])), "empty": False}))
+        if t == "serde_json" and last == "from_str":
+            j = ip.deref(A()[0])
+            if not (isinstance(j, St) and j.name == "JsonText"):
+                raise Unsupported("serde_json::from_str on text that was not produced by the modelled serializer")
+            v = j.f["v"]
+            return En("Result", ite(ip.tag_eq(v, 1), I(0), I(1)).v, {0: [v.pl[1][0] if v.pl.get(1) else None], 1: [St("JsonError", {})]})
+        if key == "PathBuf::from" or key == "Path::new":
+            return ip.deref(A()[0])
         if key == "Instant::now":
             ip.clock += 1
             return St("Instant", {"t": I(ip.clock, "u128")})
